@@ -34,6 +34,12 @@
         raises an OSError that RpcServer.serve lets escape, so the per-connection thread leaves through its exception
         path (transport closed without an answer, permit returned) -- a connection that ends abnormally must not cost
         the others anything.  The client observes the end of the connection: <<"x", 0>>.
+   sh     the connections whose client brings its own shared-memory segment (any transport object with a `.shm` is
+          used that way by the client; the serve loop attaches the segment named in the requests and keeps the
+          attachment PER CONNECTION in _ConnectionShm, dropping it when another name shows up or the connection ends).
+          att[slot] = whose segment that cache is attached to.  A result / stream batch of such a connection is written
+          through the attachment taken at the call's entry; it reaches the client iff the cache still holds that
+          connection's segment when it is written.
    Entry point: the public serve_unix(server, path, threaded=True, max_connections=mx); mx is what the caller asked for.
 
    Service (per connection tag = 101 * c):  u -> tag*1000 + i;  producer: k-th output tag*1000 + k;
@@ -42,13 +48,13 @@
    shared cell), kept to show that the clauses bite.                                                                  *)
 EXTENDS Integers, Sequences, FiniteSets, TLC
 
-CONSTANTS Worlds,          \* set of [s |-> function conn -> sequence of ops, mx |-> max_connections]; mx = 0 stands
-                           \* for None (no semaphore), otherwise the number of permits
+CONSTANTS Worlds,          \* set of [s |-> function conn -> sequence of ops, mx |-> max_connections, sh |-> set of conns];
+                           \* mx = 0 stands for None (no semaphore), otherwise the number of permits
           SharedState      \* design error switch (FALSE = intended)
 
-VARIABLES script, mx, loop, acc, backlog, closed, cl, ip, pend, c2s, s2c, eof, dead, h, ml, cur, mid, hs, flag, permits,
+VARIABLES script, mx, sh, att, loop, acc, backlog, closed, cl, ip, pend, c2s, s2c, eof, dead, h, ml, cur, mid, hs, flag, permits,
           serving, sk, sa, obs
-vars == <<script, mx, loop, acc, backlog, closed, cl, ip, pend, c2s, s2c, eof, dead, h, ml, cur, mid, hs, flag, permits,
+vars == <<script, mx, sh, att, loop, acc, backlog, closed, cl, ip, pend, c2s, s2c, eof, dead, h, ml, cur, mid, hs, flag, permits,
           serving, sk, sa, obs>>
 
 Conns == DOMAIN script
@@ -64,8 +70,8 @@ S0 == [t |-> "S0", i |-> 0]
 GB == [t |-> "G", i |-> 0]
 AfterReject(c, i) == i > 1 /\ Rejected(script[c][i - 1])
 
-InitWith(s, m) ==
-        /\ script = s /\ mx = m
+InitWith(s, m, shs) ==
+        /\ script = s /\ mx = m /\ sh = shs /\ att = [x \in {0} \cup DOMAIN s |-> 0]
         /\ loop = "start" /\ acc = 0 /\ backlog = <<>> /\ closed = FALSE
         /\ cl = [c \in DOMAIN s |-> "start"] /\ ip = [c \in DOMAIN s |-> 0] /\ pend = [c \in DOMAIN s |-> "n"]
         /\ c2s = [c \in DOMAIN s |-> <<>>] /\ s2c = [c \in DOMAIN s |-> <<>>] /\ eof = [c \in DOMAIN s |-> FALSE]
@@ -76,7 +82,7 @@ InitWith(s, m) ==
         /\ permits = m /\ serving = {}
         /\ sk = [x \in {0} \cup DOMAIN s |-> 0] /\ sa = [x \in {0} \cup DOMAIN s |-> 0]
         /\ obs = [c \in DOMAIN s |-> <<>>]
-Init == \E w \in Worlds : InitWith(w.s, w.mx)
+Init == \E w \in Worlds : InitWith(w.s, w.mx, w.sh)
 
 \* ------------------------------------------------------------------------------ accept loop
 L == /\ CASE loop = "start" -> loop' = "accept" /\ UNCHANGED <<acc, backlog, h>>
@@ -87,7 +93,7 @@ L == /\ CASE loop = "start" -> loop' = "accept" /\ UNCHANGED <<acc, backlog, h>>
           [] loop = "acq2" -> loop' = "accept" /\ h' = [h EXCEPT ![acc] = "start"] /\ UNCHANGED <<acc, backlog>>
           [] loop = "acqF" -> loop' = "done" /\ UNCHANGED <<acc, backlog, h>>
           [] OTHER -> FALSE
-     /\ UNCHANGED <<script, mx, closed, cl, ip, pend, c2s, s2c, eof, dead, ml, cur, mid, hs, flag, permits, serving, sk, sa, obs>>
+     /\ UNCHANGED <<script, mx, sh, att, closed, cl, ip, pend, c2s, s2c, eof, dead, ml, cur, mid, hs, flag, permits, serving, sk, sa, obs>>
 LEnabled == \/ loop \in {"start", "acq1", "acq2", "acqF"}
             \/ loop = "accept" /\ (closed \/ backlog # <<>>)
 
@@ -127,7 +133,7 @@ C(c) ==
                                   !.q = IF st.pend = "s" THEN Append(@, SE) ELSE @] IN
             CSet(c, CIssue(c, st1)) /\ UNCHANGED backlog
        [] OTHER -> FALSE
-  /\ UNCHANGED <<script, mx, loop, acc, closed, dead, h, ml, cur, mid, hs, flag, permits, serving, sk, sa>>
+  /\ UNCHANGED <<script, mx, sh, att, loop, acc, closed, dead, h, ml, cur, mid, hs, flag, permits, serving, sk, sa>>
 CEnabled(c) == \/ (cl[c] = "start" /\ loop # "start") \/ cl[c] \in {"connected", "opened"} \/ (cl[c] = "wait" /\ s2c[c] # <<>>)
                \/ (cl[c] = "wait" /\ pend[c] = "g" /\ dead[c])
 
@@ -140,21 +146,23 @@ HRun(c, st) ==
   THEN IF st.q = <<>> THEN [st EXCEPT !.pc = "io"]
        ELSE HRun(c, [st EXCEPT !.q = Tail(@), !.mid = FALSE, !.r = IF st.hs THEN @ ELSE Append(@, <<"e", 0>>)])
   ELSE IF st.q = <<>>
-  THEN IF eof[c] THEN [st EXCEPT !.pc = "fin", !.end = TRUE] ELSE [st EXCEPT !.pc = "io"]
+  THEN IF eof[c] THEN [st EXCEPT !.pc = "fin", !.end = TRUE, !.at = 0] ELSE [st EXCEPT !.pc = "io"]   \* conn_shm.close()
   ELSE LET x == Head(st.q) IN
        CASE x.t = "R" ->
               LET op == script[c][x.i]  f == IF Enters(op) THEN FALSE ELSE st.fl IN      \* serve_one entry clears the mark
               IF NM(op) = 0 THEN HRun(c, [st EXCEPT !.q = Tail(@), !.fl = f, !.r = Append(@, <<"c", 0>>)])
-              ELSE [st EXCEPT !.q = Tail(@), !.fl = f, !.pc = "m", !.ml = NM(op), !.cur = x.i]
-         [] x.t = "G" -> [st EXCEPT !.q = Tail(@), !.pc = "fin", !.end = TRUE, !.dead = TRUE]   \* serve() raises
+              ELSE [st EXCEPT !.q = Tail(@), !.fl = f, !.pc = "m", !.ml = NM(op), !.cur = x.i,
+                              !.at = IF Enters(op) /\ c \in sh THEN c ELSE @]          \* _ConnectionShm.refresh
+         [] x.t = "G" -> [st EXCEPT !.q = Tail(@), !.pc = "fin", !.end = TRUE, !.dead = TRUE, !.at = 0]   \* serve() raises
          [] x.t = "SP" -> HRun(c, [st EXCEPT !.q = Tail(@), !.hs = st.fl, !.fl = FALSE, !.mid = TRUE])
          [] OTHER -> HRun(c, [st EXCEPT !.q = Tail(@), !.fl = FALSE, !.r = IF st.fl THEN @ ELSE Append(@, <<"e", 0>>)])
 HState(c) == [q |-> c2s[c], r |-> s2c[c], mid |-> mid[c], hs |-> hs[c], fl |-> flag[Slot(c)], pc |-> h[c], ml |-> ml[c],
-              cur |-> cur[c], end |-> FALSE, dead |-> dead[c]]
+              cur |-> cur[c], end |-> FALSE, dead |-> dead[c], at |-> att[Slot(c)]]
 HSet(c, st, sv, pm) ==
   /\ c2s' = [c2s EXCEPT ![c] = st.q] /\ s2c' = [s2c EXCEPT ![c] = st.r] /\ mid' = [mid EXCEPT ![c] = st.mid]
   /\ hs' = [hs EXCEPT ![c] = st.hs] /\ flag' = [flag EXCEPT ![Slot(c)] = st.fl] /\ h' = [h EXCEPT ![c] = st.pc]
   /\ ml' = [ml EXCEPT ![c] = st.ml] /\ cur' = [cur EXCEPT ![c] = st.cur] /\ dead' = [dead EXCEPT ![c] = st.dead]
+  /\ att' = [att EXCEPT ![Slot(c)] = st.at]
   \* EOF: transport.close(); semaphore.release(); next: the state lock
   /\ serving' = IF st.end THEN sv \ {c} ELSE sv
   /\ permits' = IF st.end /\ mx > 0 THEN pm + 1 ELSE pm
@@ -168,7 +176,7 @@ Result(c) ==          \* what the method / process() call that now returns hands
 H(c) ==
   /\ c \in Conns
   /\ CASE h[c] = "start" /\ mx > 0 ->
-            h' = [h EXCEPT ![c] = "sem"] /\ UNCHANGED <<c2s, s2c, dead, ml, cur, mid, hs, flag, permits, serving, sk, sa>>
+            h' = [h EXCEPT ![c] = "sem"] /\ UNCHANGED <<att, c2s, s2c, dead, ml, cur, mid, hs, flag, permits, serving, sk, sa>>
        [] (h[c] = "start" /\ mx = 0) \/ (h[c] = "sem" /\ permits > 0) ->
             /\ HSet(c, HRun(c, HState(c)), serving \cup {c}, IF mx > 0 THEN permits - 1 ELSE permits)
             /\ UNCHANGED <<sk, sa>>
@@ -178,24 +186,26 @@ H(c) ==
             /\ ml' = [ml EXCEPT ![c] = @ - 1]
             /\ sk' = IF Op(c) = "pt" THEN [sk EXCEPT ![Slot(c)] = 0] ELSE sk
             /\ sa' = IF Op(c) = "xe" THEN [sa EXCEPT ![Slot(c)] = 0] ELSE sa
-            /\ UNCHANGED <<h, c2s, s2c, dead, cur, mid, hs, flag, permits, serving>>
+            /\ UNCHANGED <<att, h, c2s, s2c, dead, cur, mid, hs, flag, permits, serving>>
        [] h[c] = "m" /\ ml[c] = 1 ->
             \* the call returns (or init raises: error stream, and the connection's stray mark is set): response written,
             \* back to reading
-            LET st == [HState(c) EXCEPT !.r = Append(@, Result(c).v), !.ml = 0,
+            \* (a data-carrying answer of a connection with a segment travels through the cache's attachment)
+            LET lost == c \in sh /\ ~Rejected(Op(c)) /\ att[Slot(c)] # c
+                st == [HState(c) EXCEPT !.r = Append(@, IF lost THEN <<"e", 0>> ELSE Result(c).v), !.ml = 0,
                                         !.fl = IF Rejected(Op(c)) THEN TRUE ELSE @] IN
             /\ HSet(c, HRun(c, st), serving, permits)
             /\ sk' = Result(c).k /\ sa' = Result(c).a
-       [] h[c] = "fin" -> h' = [h EXCEPT ![c] = "done"] /\ UNCHANGED <<c2s, s2c, dead, ml, cur, mid, hs, flag, permits, serving, sk, sa>>
+       [] h[c] = "fin" -> h' = [h EXCEPT ![c] = "done"] /\ UNCHANGED <<att, c2s, s2c, dead, ml, cur, mid, hs, flag, permits, serving, sk, sa>>
        [] OTHER -> FALSE
-  /\ UNCHANGED <<script, mx, loop, acc, backlog, closed, cl, ip, pend, eof, obs>>
+  /\ UNCHANGED <<script, mx, sh, loop, acc, backlog, closed, cl, ip, pend, eof, obs>>
 HEnabled(c) == \/ h[c] \in {"start", "m", "fin"} \/ (h[c] = "sem" /\ permits > 0)
                \/ (h[c] = "io" /\ (c2s[c] # <<>> \/ eof[c]))
 
 \* the harness closes the listening socket once every connection has been served to its end
 AllDone == \A c \in Conns : cl[c] = "done" /\ h[c] = "done"
 CloseListener == /\ ~closed /\ AllDone /\ loop = "accept" /\ closed' = TRUE
-                 /\ UNCHANGED <<script, mx, loop, acc, backlog, cl, ip, pend, c2s, s2c, eof, dead, h, ml, cur, mid, hs, flag, permits,
+                 /\ UNCHANGED <<script, mx, sh, att, loop, acc, backlog, cl, ip, pend, c2s, s2c, eof, dead, h, ml, cur, mid, hs, flag, permits,
                                 serving, sk, sa, obs>>
 
 \* (quantified over a constant range so that TLC labels every step with its thread; C / H check c \in Conns themselves)
